@@ -42,10 +42,11 @@ class Unit:
         self.kwonly = [a.arg for a in node.args.kwonlyargs]
         self.nested = {}
         self.name = node.name
+        self.is_static = any(isinstance(d, ast.Name) and d.id == 'staticmethod' for d in node.decorator_list)
 
     @property
     def is_method(self):
-        return self.cls is not None and self.parent is None
+        return self.cls is not None and self.parent is None and not self.is_static
 
     @property
     def call_params(self):
@@ -133,6 +134,15 @@ class Program:
                     for par in ast.walk(tree):
                         for ch in ast.iter_child_nodes(par):
                             self.parent[id(ch)] = par
+        # helpers introduced after the pinned vocabulary (extract-method refactorings) are inlined back into their callers
+        from .inline import Inliner, load_vocabulary
+        self.inliner = Inliner(self.modules, load_vocabulary()).run()
+        if self.inliner.inlined_sites:
+            self.parent = {}
+            for tree in self.modules.values():
+                for par in ast.walk(tree):
+                    for ch in ast.iter_child_nodes(par):
+                        self.parent[id(ch)] = par
         for mod, tree in self.modules.items():
             for n in tree.body:
                 if isinstance(n, ast.ClassDef):
@@ -525,7 +535,7 @@ class Program:
         return fu.ret
 
     def bind(self, fu, argt, kwt, call, skip_self):
-        params = fu.params[1:] if skip_self and fu.cls and fu.parent is None else fu.params
+        params = fu.params[1:] if skip_self and fu.cls and fu.parent is None and not fu.is_static else fu.params
         if any(isinstance(a, ast.Starred) for a in call.args):
             return
         for p, t in zip(params, argt):
@@ -692,7 +702,7 @@ class Program:
                     self.widen(u, target.value, T(('list', t)))
 
     def run_unit(self, u):
-        if u.cls and u.parent is None and u.params:
+        if u.cls and u.parent is None and u.params and not u.is_static:
             self.setvar(u, u.params[0], T(('inst', u.cls)))
         for st in u.node.body:
             self.stmt(u, st)
